@@ -690,6 +690,11 @@ def _index_common(w, st, fr, path, targs, args, dty, mut):
             # prefix view of the same object
             return Ref(base.obj, base.proj, mut, n)
         oid = ("sub", len(st.trace), tm.show(s))
+        if not mut and isinstance(tgt, Agg) and tgt.kind == ("array",) and s.is_const() and e.is_const() and e.val <= len(tgt.fields):
+            # shared view of a known array with constant bounds: the elements themselves (nothing can be written through
+            # it, and the array cannot change while it is borrowed)
+            st.store[oid] = Agg(("array",), 0, list(tgt.fields[s.val:e.val]))
+            return Ref(oid, (), False, n)
         name = getattr(tgt, "name", "slice")
         ety = tgt.ety if isinstance(tgt, SymArr) else ("int", 8, False, False)
         st.store[oid] = SymArr("%s[%s..]" % (name, tm.show(s)), ety, n)
